@@ -1,7 +1,8 @@
 """TLC families (constants of spec/MC.tla) and the per-property plan."""
 
 # repaired designs in effect in /repo (must mirror the code; see known_findings.json "fixed")
-FIX = ["direct_guard", "mapref_reset", "unsub_decr", "update_changed", "ahh_weak", "max_height"]
+FIX = ["direct_guard", "mapref_reset", "unsub_decr", "update_changed", "ahh_weak", "max_height",
+       "edge_cb_parent", "swap_same_child", "decr_invalid"]
 
 BASE = dict(K=2, Ctors=[], Fs1=["id"], Fs2=["add"], Cutoffs=[], RecipeKinds=[], Ops=["set"], Effs=[],
             MaxVars=1, MaxNodes=3, MaxObs=2, MaxActs=8, MaxRounds=2, MaxH=8, MaxSubs=0, Late=False)
